@@ -245,37 +245,82 @@ func checkStageSegmenter(p *core.Prog, r *core.Report, rule string) {
 		ok, why := false, "the segmenter is not WithInitialBlock(<minimum over the layer's modules>)"
 		if wc, isCall := seg.(*ssa.Call); isCall && core.CalleeOf(wc) != nil && core.CalleeOf(wc).Name() == "WithInitialBlock" {
 			v := wc.Call.Args[len(wc.Call.Args)-1]
-			// v is carried by a loop (over the layer's modules) and folded with min on its back edge
-			if ph, isPhi := v.(*ssa.Phi); isPhi {
-				for _, l := range core.Loops(fn) {
-					if ph.Block() != l.Header {
-						continue
+			// v is a running minimum over the layer's modules (computed here or by a helper that returns it)
+			ok = isMinFold(fn.Pkg, v, 1)
+		}
+		r.Check(ok, rule, "NewStages/stage-segmenter", "a stage's first segment is that of the lowest initial block among its modules (the segmenter given to NewStage starts at a minimum folded over the layer)", why, p.Pos(c.Pos()))
+	}
+}
+
+// isMinFold: v is a running minimum — a loop-carried value whose update is min(itself, x) (builtin, or a phi choosing
+// between itself and the candidate) — or the result of a helper of the package that returns such a value.
+func isMinFold(pkg *ssa.Package, v ssa.Value, depth int) bool {
+	v = core.SkipConv(v)
+	switch x := v.(type) {
+	case *ssa.Phi:
+		fn := x.Parent()
+		for _, l := range core.Loops(fn) {
+			if x.Block() != l.Header {
+				continue
+			}
+			for i, e := range x.Edges {
+				if !l.Body[l.Header.Preds[i]] {
+					continue
+				}
+				if mc, isCall := core.SkipConv(e).(*ssa.Call); isCall {
+					if b, isB := mc.Call.Value.(*ssa.Builtin); isB && b.Name() == "min" {
+						for _, a := range mc.Call.Args {
+							if core.SkipConv(a) == ssa.Value(x) {
+								return true
+							}
+						}
 					}
-					for i, e := range ph.Edges {
-						if !l.Body[l.Header.Preds[i]] {
-							continue
-						}
-						if mc, isMin := e.(*ssa.Call); isMin {
-							if b, isB := mc.Call.Value.(*ssa.Builtin); isB && b.Name() == "min" {
-								for _, a := range mc.Call.Args {
-									if a == ssa.Value(ph) {
-										ok = true
-									}
-								}
-							}
-						}
-						// hand-written: the new value replaces the carried one only where it is smaller
-						if ip, isIP := e.(*ssa.Phi); isIP {
-							for _, ie := range ip.Edges {
-								if ie == ssa.Value(ph) {
-									ok = true
-								}
-							}
+				}
+				if ip, isIP := e.(*ssa.Phi); isIP {
+					for _, ie := range ip.Edges {
+						if ie == ssa.Value(x) {
+							return true
 						}
 					}
 				}
 			}
 		}
-		r.Check(ok, rule, "NewStages/stage-segmenter", "a stage's first segment is that of the lowest initial block among its modules (the segmenter given to NewStage starts at a minimum folded over the layer)", why, p.Pos(c.Pos()))
+	case *ssa.Extract:
+		if depth == 0 {
+			return false
+		}
+		if hc, ok := x.Tuple.(*ssa.Call); ok {
+			return helperReturnsMinFold(pkg, hc, x.Index, depth)
+		}
+	case *ssa.Call:
+		if depth == 0 {
+			return false
+		}
+		return helperReturnsMinFold(pkg, x, 0, depth)
 	}
+	return false
+}
+
+func helperReturnsMinFold(pkg *ssa.Package, hc *ssa.Call, idx, depth int) bool {
+	h := core.StaticFn(hc.Common())
+	if h == nil || h.Blocks == nil || h.Pkg != pkg || h.Parent() != nil {
+		return false
+	}
+	n, all := 0, true
+	core.Instrs(h, func(in ssa.Instruction) {
+		rt, ok := in.(*ssa.Return)
+		if !ok {
+			return
+		}
+		vals := core.ReturnValues(rt)
+		if idx >= len(vals) {
+			all = false
+			return
+		}
+		n++
+		if !isMinFold(pkg, vals[idx], depth-1) {
+			all = false
+		}
+	})
+	return n > 0 && all
 }
